@@ -116,6 +116,8 @@ func ProfileOpts(p string) RandomOpts {
 		return RandomOpts{EnvProb: 0.25, EnvBudget: 8, AllowReown: true, AllowCRDelete: true, AllowArchive: true, AllowOrphan: true, Race: true, Settle: true}
 	case "deploy": // C07, C08: template edits, lagging cache for creates, faults and crashes around the create
 		return RandomOpts{EnvProb: 0.35, EnvBudget: 3, TemplateEdits: 4, Lag: true, Faults: 2, Crashes: 1, Settle: true}
+	case "deploy-race": // C08: the ObjectSet and the ObjectSetPhase controller race on objects shared by two revisions
+		return RandomOpts{EnvProb: 0.3, EnvBudget: 3, TemplateEdits: 4, Race: true, Settle: true}
 	case "deploy-pause": // C09 propagation
 		return RandomOpts{EnvProb: 0.35, EnvBudget: 2, TemplateEdits: 6, AllowPause: true, Settle: true}
 	case "chaos": // C10
